@@ -73,5 +73,8 @@ func repair(fileIO fileIO, parPath string, options RepairOptions) (RepairResult,
 // error returned by Repair means that repair is necessary but not
 // possible.
 func RepairErrorMeansRepairNecessaryButNotPossible(err error) bool {
-	return err == reedsolomon.ErrTooFewShards
+	// ErrShardNoData is what the coder returns when nothing at all
+	// is left to reconstruct from, i.e. no usable data file and no
+	// parity volume.
+	return err == reedsolomon.ErrTooFewShards || err == reedsolomon.ErrShardNoData
 }
